@@ -672,9 +672,152 @@ def inline_helpers(body, is_helper, depth=2, max_blocks=4000):
         _thread_result_returns(j, cj, off_b, off_l, t)
     if not changed:
         return body
+    _thread_known_values(j)
     nb = Body(facts, j)
     nb.inlined = True
     return nb
+
+
+def _thread_known_values(j, max_chain=12, max_clones=120):
+    """Path sensitivity across a spliced call, second part.  A helper that returns `Ok(None)` on one path and
+    `Ok(Some(x))` on another (or `Ok(true)` / `Ok(false)`) joins those paths in its return block, and the caller
+    immediately matches on the payload: in the merged flow graph the `None` path would appear to reach the caller's
+    `Some` arm.  For every edge P -> M into a join M, the straight-line chain from M (gotos, `?` plumbing) is walked with
+    the values P itself establishes (constants, enum aggregates, moves, variant fields, discriminant reads); if it ends
+    in a switch whose scrutinee is thereby known, P gets its own copy of that chain ending in the edge actually taken.
+    Only chains without real calls are copied (no call site is duplicated)."""
+    blocks = j['blocks']
+    n0 = len(blocks)
+
+    def succs(tm):
+        out = []
+        for k in ('target', 'otherwise'):
+            if isinstance(tm.get(k), int):
+                out.append(tm[k])
+        for x in tm.get('targets', []) or []:
+            out.append(x['bb'])
+        return out
+    npred = {}
+    for b in blocks:
+        for sx in set(succs(b['term'])):
+            npred[sx] = npred.get(sx, 0) + 1
+
+    def opval(env, op):
+        if not isinstance(op, dict):
+            return None
+        if 'const' in op:
+            v = (op['const'].get('val') or {})
+            if 'int' in v:
+                return ('const', v['int'])
+            return None
+        pl = op.get('move') or op.get('copy')
+        if pl is None:
+            return None
+        return placeval(env, pl)
+
+    def placeval(env, pl):
+        v = env.get(pl.get('l'))
+        pr = pl.get('p') or []
+        i = 0
+        while v is not None and i < len(pr):
+            e = pr[i]
+            if isinstance(e, dict) and 'as' in e and v[0] == 'agg' and v[2] == e['as'] and i + 1 < len(pr) and isinstance(pr[i + 1], dict) and 'i' in pr[i + 1]:
+                k = pr[i + 1]['i']
+                v = v[3][k] if k < len(v[3]) else None
+                i += 2
+                continue
+            if isinstance(e, dict) and 'i' in e and v[0] == 'agg' and len(pr) == 1 and e['i'] < len(v[3]) and False:
+                v = v[3][e['i']]
+                i += 1
+                continue
+            return None
+        return v
+
+    def step(env, st):
+        if 'assign' not in st:
+            return
+        tgt = st['assign']
+        l = tgt.get('l')
+        if tgt.get('p'):
+            env.pop(l, None)      # a store into part of it: no longer known as a whole
+            return
+        rv = st['rv']
+        k = rv.get('k')
+        v = None
+        if k == 'use':
+            v = opval(env, rv.get('op'))
+        elif k == 'agg' and rv.get('agg') == 'adt' and rv.get('variant'):
+            v = ('agg', rv.get('adt'), rv.get('variant'), [opval(env, o) for o in rv.get('ops', [])])
+        elif k == 'discr':
+            pv = placeval(env, rv.get('place') or {})
+            if pv is not None and pv[0] == 'agg':
+                for vv in rv.get('variants', []):
+                    if vv.get('name') == pv[2]:
+                        v = ('const', vv.get('discr'))
+        if v is None:
+            env.pop(l, None)
+        else:
+            env[l] = v
+    clones = 0
+    for P in range(n0):
+        pt = blocks[P]['term']
+        for M in set(succs(pt)):
+            if npred.get(M, 0) < 2 or clones >= max_clones or pt.get('k') == 'call' and M == pt.get('unwind'):
+                continue
+            env = {}
+            for st in blocks[P]['stmts']:
+                step(env, st)
+            if not env:
+                continue
+            chain, cur, resolved = [], M, None
+            while len(chain) < max_chain and cur not in chain and cur < len(blocks):
+                blk = blocks[cur]
+                if blk.get('cleanup'):
+                    break
+                for st in blk['stmts']:
+                    step(env, st)
+                chain.append(cur)
+                tm = blk['term']
+                if tm.get('k') == 'goto':
+                    cur = tm['target']
+                    continue
+                if tm.get('k') == 'call' and (tm.get('callee') or '').endswith('Try::branch') and 'target' in tm and not (tm.get('dest') or {}).get('p'):
+                    av = opval(env, tm['args'][0]) if tm.get('args') else None
+                    dl = (tm.get('dest') or {}).get('l')
+                    if av is not None and av[0] == 'agg' and av[1] == 'core::result::Result':
+                        env[dl] = ('agg', 'core::ops::control_flow::ControlFlow', 'Continue' if av[2] == 'Ok' else 'Break', [av[3][0] if av[3] else None])
+                    elif av is not None and av[0] == 'agg' and av[1] == 'core::option::Option':
+                        env[dl] = ('agg', 'core::ops::control_flow::ControlFlow', 'Continue' if av[2] == 'Some' else 'Break', [av[3][0] if av[3] else None])
+                    else:
+                        env.pop(dl, None)
+                    cur = tm['target']
+                    continue
+                if tm.get('k') == 'switch':
+                    sv = opval(env, tm.get('op'))
+                    if sv is not None and sv[0] == 'const':
+                        tg = [x['bb'] for x in tm.get('targets', []) if x['v'] == sv[1]]
+                        resolved = tg[0] if tg else tm.get('otherwise')
+                break
+            if resolved is None or len(chain) < 1:
+                continue
+            base = len(blocks)
+            for i, cb in enumerate(chain):
+                c2 = json.loads(json.dumps(blocks[cb]))
+                if i + 1 < len(chain):
+                    if c2['term'].get('k') == 'goto':
+                        c2['term']['target'] = base + i + 1
+                    else:
+                        c2['term']['target'] = base + i + 1
+                else:
+                    c2['term'] = {'k': 'goto', 'target': resolved, 'span': c2['term'].get('span'), 'threaded_value': True}
+                blocks.append(c2)
+            clones += 1
+            for k in ('target', 'otherwise'):
+                if pt.get(k) == M:
+                    pt[k] = base
+            for x in pt.get('targets', []) or []:
+                if x['bb'] == M:
+                    x['bb'] = base
 
 
 _FIELD_TABLE = None
@@ -829,6 +972,18 @@ def apply_fn_aliases(j):
         if len(resig) == 1 and not [m for m in missing if m != p and m.rsplit('::', 1)[1] == name]:
             amap[resig[0]] = p
             taken.add(resig[0])
+            continue
+        if resig:
+            continue
+        # renamed AND re-typed (e.g. `&mut Vec<bool>` parameters turned into `&mut [bool]`): the one reviewed function missing
+        # from its parent and the one unknown private function there, with the same number of parameters and the same return type
+        lost = [m for m in missing if m.rsplit('::', 1)[0] == parent]
+        found = [q for q, fn in present.items() if q not in tab and q not in taken and fn.get('vis') != 'pub' and '{' not in q and
+                 q.rsplit('::', 1)[0] == parent]
+        if len(lost) == 1 and len(found) == 1 and len(present[found[0]].get('inputs', [])) == len(want['inputs']) and \
+                present[found[0]].get('output', '') == want['output']:
+            amap[found[0]] = p
+            taken.add(found[0])
     if not amap:
         return {}
 
@@ -993,8 +1148,10 @@ class Facts:
                 if b.j.get('kind') != 'closure' and not b.j.get('impl_trait'):
                     # a new function that itself dispatches on the schema node is a cell table of its own: the dispatch
                     # matrices follow calls to it (nesting its match inside a caller's arm would blur both)
-                    dispatches = any('assign' in st and st['rv'].get('k') == 'discr' and (st['rv'].get('adt') or '').endswith('self_referential::SchemaNode')
-                                     for blk in b.blocks for st in blk['stmts'])
+                    # (a `matches!(node, SchemaNode::Enum(..))` test is not a dispatch: three or more arms are)
+                    dispatches = any(blk['term'].get('k') == 'switch' and len(blk['term'].get('targets', []) or []) >= 3 and
+                                     any('assign' in st and st['rv'].get('k') == 'discr' and (st['rv'].get('adt') or '').endswith('self_referential::SchemaNode') for st in blk['stmts'])
+                                     for blk in b.blocks)
                     if not dispatches:
                         new.add(path)
         if not new:
